@@ -6,7 +6,7 @@ pub fn gen_case(rng: &mut Rng) -> Vec<String> {
     let n = rng.range(5, 60);
     let mut sizes = [0usize; 8];     // tracked sizes so that indexed ops stay in range
     let mut lines = Vec::new();
-    let allow_pushself = false;      // push_back(v[i]) is a separate, opt-in probe (see README of the C++ harness)
+    let allow_pushself = true;       // v.push_back(v[i]): legal for std::vector, was a use-after-free here (fixed, see known_findings.json)
     for _ in 0..n {
         let h = rng.below(8) as usize;
         let g = rng.below(8) as usize;
